@@ -4,13 +4,15 @@ R-LIFT: for every float vector type and every lane-wise operation, on every back
 here (sse2, sse2+fma, scalar, core-simd, libm; thorough: neon, wasm32): result lane j is lane 0 with the
 lane-0 operands replaced by the lane-j operands, and lane 0 is the term of the same-named f32/f64 primitive
 run through the same engine (equal as IEEE values; min/max on non-NaN lanes; NaN matches NaN).
-Decides the structural clause only: the SSE2 bit-trick floor/ceil/trunc/round algorithms and libm routines are
-not shown numerically equal to the primitive (listed as UNDECIDED by rule, never an alarm)."""
+The SSE2 integer round-trip trunc / floor / ceil (and round, fract, fract_gl built on them) are decided through five stated IEEE facts
+(rules/lift.py F1-F5): the guard constant must lie in [2^23, 2^31] and the adjusted value, which touches x only through comparisons with
+trunc(x), is decided per ordering (x < trunc x, x > trunc x, x = trunc x) - a wrong constant or comparison is a VIOLATION naming the input
+class, an unknown algorithm shape is UNDECIDED and trips the floor.  libm routines are mapped name-to-name, not shown numerically equal to std."""
 import re
 import terms as tm
 from terms import mk, ite, const
 import lift
-from lift import ArgView, value_lanes, result_of, check_uniform, oracle_call, prim_paths, canon_float, flatten_aci, strip_ref
+from lift import ArgView, value_lanes, result_of, check_uniform, oracle_call, prim_paths, canon_float, flatten_aci, strip_ref, int_roundtrip_rewrite
 from common import api_roots, vec_info, tydef, atom_at, cell_term, TRUSTED_COMMON
 from runner import norm_def_path
 
@@ -18,8 +20,9 @@ LEVEL = 'other'
 TECHNIQUE = 'lane-uniformity by substitution + same-named-primitive agreement over rustc MIR on 5-7 backend configurations (abstract interpretation, all inputs)'
 EXPLANATION = ('Structural clause of C01 decided for all inputs: every lane-wise float operation routes lane i of its operands through exactly the '
                'named IEEE primitive into lane i, on every backend (NEON and wasm32 by type-checking their sources against the target and using the '
-               'intrinsic semantics table).  Not decided: numeric equality of the SSE2 integer-round-trip floor/ceil/trunc/round and of libm with std.')
-LEVEL_NOTE = ('Decides the structural clause, not the numeric behaviour of opaque algorithms. Trusted: rustc MIR/layout, intrinsic table, IEEE-exact rewrites, '
+               'intrinsic semantics table).  The SSE2 integer round-trip trunc/floor/ceil/round algorithms are decided by an ordering case analysis resting on five stated IEEE facts.  '
+               'Not decided: numeric equality of the libm routines with std.')
+LEVEL_NOTE = ('Decides the lane schema for all inputs; libm accuracy is not claimed. Trusted: IEEE facts F1-F5 of rules/lift.py, round-via-trunc identity, rustc MIR/layout, intrinsic table, IEEE-exact rewrites, '
               'and the equivalences the property itself grants (-0 == +0, NaN == NaN, min/max on non-NaN lanes).')
 
 CONFIGS_QUICK = ['sse2', 'sse2-fma', 'scalar', 'coresimd']
@@ -30,7 +33,7 @@ SAME_NAMED = {'abs', 'signum', 'copysign', 'min', 'max', 'floor', 'ceil', 'trunc
               'div_euclid', 'rem_euclid'}
 EXPLICIT = {'clamp', 'fract_gl', 'is_nan_mask', 'is_finite_mask'}
 REDUCE = {'is_nan', 'is_finite', 'is_negative_bitmask', 'abs_diff_eq', 'eq', 'ne', 'min_element', 'max_element', 'min_position', 'max_position'}
-# instances that are opaque algorithms by design (DESIGN 4/C01): UNDECIDED, never an alarm.  (backend class, type, method)
+# SSE2 operations implemented by the integer round-trip algorithms (decided through rules/lift.py int_roundtrip_rewrite)
 OPAQUE_SSE2 = {'floor', 'ceil', 'trunc', 'round', 'fract', 'fract_gl'}
 FLOOR_LANEWISE = 560   # measured per config when armed
 FLOOR_REDUCE = 60
@@ -99,7 +102,7 @@ def run(ctx):
         F = ctx.facts(cfg)
         H = ctx.harness(cfg)
         be = backend_of(F, cfg)
-        n_lane = n_red = 0
+        n_lane = n_red = n_rt = 0
         types = set()
         for name, it, tn, w in float_roots(F):
             mname = it.get('name') or ''
@@ -177,7 +180,13 @@ def run(ctx):
                 ctx.unverifiable('R-LIFT', cfg, name, 'lane-uniform, but the primitive %s was not found in the facts' % src)
                 continue
             got = lanes[0]
+            rt = simd_type and be == 'sse2' and mname in OPAQUE_SSE2
+            if rt:
+                del lift.RT_DIAG[:]
+                got = int_roundtrip_rewrite(got)
             if got is exp or canon_float(got) is canon_float(exp):
+                if rt:
+                    n_rt += 1
                 ctx.holds('R-LIFT', cfg, name, src)
                 if n_lane % 150 == 7:
                     ctx.sample({'config': cfg, 'fn': name, 'lane0': tm.show(got, 0, 5)[:160], 'primitive': src})
@@ -192,18 +201,25 @@ def run(ctx):
                 T_ = mk('trunc', x)
                 alt = tm.f2('fadd', T_, ite(tm.f2('fle', tm.fconst(0.5, sz), tm.f1('fabs', tm.f2('fsub', x, T_))), mk('copysign', tm.fconst(1.0, sz), x), tm.fconst(0.0, sz)))
                 if got is alt:
+                    if rt:
+                        n_rt += 1
                     ctx.holds('R-LIFT', cfg, name, 'round via trunc identity')
                     continue
             if mname == 'round' and is_magic_round(got):
                 ctx.violation('R-LIFT', cfg, name, dict(where, problem='round() is the magic-number idiom (v + copysign(2^23, v)) - copysign(2^23, v): rounds ties to even, the primitive f32::round rounds ties away from zero (2.5 -> 2 instead of 3)', lane0=tm.show(got, 0, 6)[:300]))
                 continue
-            if simd_type and be == 'sse2' and mname in OPAQUE_SSE2:
-                ctx.undecided('R-LIFT', cfg, name, 'SSE2 %s is an integer round-trip algorithm (DirectXMath); numeric equality with %s is not a structural fact' % (mname, src))
+            if rt and lift.RT_DIAG:
+                ctx.violation('R-LIFT', cfg, name, dict(where, problem='SSE2 %s is an integer round-trip algorithm that is not %s: %s' % (mname, src, lift.RT_DIAG[0]), lane0=tm.show(lanes[0], 0, 6)[:300]))
+                continue
+            if rt:
+                ctx.undecided('R-LIFT', cfg, name, 'SSE2 %s is an integer round-trip algorithm of a shape the recogniser (facts F1-F5, rules/lift.py) does not know; numeric equality with %s is not decided' % (mname, src))
                 continue
             definite = tm.depth(canon_float(got)) <= 3 and tm.depth(canon_float(exp)) <= 3
             detail = dict(where, problem='lane schema is not the primitive %s' % src, lane0=tm.show(canon_float(got), 0, 6)[:300], primitive_term=tm.show(canon_float(exp), 0, 6)[:300],
                           definite='both sides are short compositions of vocabulary primitives that differ' if definite else 'composite terms differ')
             ctx.violation('R-LIFT', cfg, name, detail)
+        if be == 'sse2':
+            ctx.floor('SSE2 integer round-trip rounding operations recognised (%s)' % cfg, n_rt, 12)
         ctx.floor('lane-wise float operations (%s)' % cfg, n_lane, FLOOR_LANEWISE)
         ctx.floor('float reductions / predicates (%s)' % cfg, n_red, FLOOR_REDUCE)
         ctx.floor('float vector types (%s)' % cfg, len(types), 7)
